@@ -6,7 +6,9 @@
 // statement execution at the driver and three windows inside PreparedStmtDB.prepare
 // (verifhook points) are PARKED; a scheduler releases one parked call at a time in a
 // seeded (thorough: partly enumerated) order, interleaved with Reset() and Close(), with
-// injected preparation failures and ErrBadConn. Oracle: progress (no deadlock once nothing
+// injected preparation failures and ErrBadConn, and with callers whose context has ended
+// before their call or is cancelled by the scheduler at a logical step (also while a
+// transaction keeps the pool's only connection). Oracle: progress (no deadlock once nothing
 // is parked), results equal to the known table contents, errors only as injected or clean
 // errors after Close, at most one preparation per text and generation, failed
 // preparations not cached, no driver statement left open after Close has quiesced
@@ -58,7 +60,15 @@ type opKind string
 // after an increment of its own: the transaction must read its own write)
 // QAERR executes the text of QA with one argument too many: a failure private to the caller (the statement
 // itself is fine), which must neither cost the other users of that text their statement nor a new preparation.
-var opKinds = []opKind{"QA", "QB", "FIND", "EXEC", "TXQA", "TXEXEC", "QA", "QB", "ROW", "TXROW", "QAERR", "TXNEST", "CONNQA"}
+// TXOUTROW / TXOUTQ / TXOUTX: a transaction increments the worker's counter and, still inside its block, issues one
+// statement (Row() / Raw().Scan / Exec) through the handle OUTSIDE the transaction with a context that has already
+// ended: that call returns "context canceled" at once in non-prepared mode, whether or not a pool connection is free
+// (the transaction itself may hold the only one).
+var opKinds = []opKind{"QA", "QB", "FIND", "EXEC", "TXQA", "TXEXEC", "QA", "QB", "ROW", "TXROW", "QAERR", "TXNEST", "CONNQA", "TXOUT"}
+
+var txOutKinds = []opKind{"TXOUTROW", "TXOUTQ", "TXOUTX"}
+
+func txOut(op opKind) bool { return op == "TXOUTROW" || op == "TXOUTQ" || op == "TXOUTX" }
 
 type opResult struct {
 	op          opKind
@@ -70,6 +80,20 @@ type opResult struct {
 	closeAfter  bool  // ... before it returned
 	resetsAt    [2]int
 	startTick   int
+	endTick     int
+	preEnded    bool  // the operation was started with a context that had already ended
+	ctxEnded    bool  // its context had ended before it returned (from the start, or the controller cancelled it)
+	outDone     bool  // TXOUT*: the statement through the outer handle was issued
+	outErr      error // ... and returned this
+}
+
+// usesEndedCtx: some statement of the operation ran (or may have run) under a context that had ended
+func (r opResult) usesEndedCtx() bool { return r.ctxEnded || (txOut(r.op) && r.outDone) }
+
+// ctxClass: what database/sql (and the SQLite driver) report for a statement whose context has ended; a
+// transaction whose context ended is rolled back by database/sql, later statements report ErrTxDone
+func ctxClass(err error) bool {
+	return errors.Is(err, context.Canceled) || errors.Is(err, sql.ErrTxDone) || strings.Contains(err.Error(), "interrupted")
 }
 
 type world struct {
@@ -81,6 +105,8 @@ type world struct {
 	psdb *gorm.PreparedStmtDB
 	path string
 	sdb  *sql.DB
+	ctxs []context.Context // per worker (index worker-1): carries the worker's number, cancelled by the controller action "cancel"
+	stop []context.CancelFunc
 }
 
 func openWorld(c *core.Ctx, s *sched, sessionLevel bool, maxOpen int, both bool) *world {
@@ -102,6 +128,10 @@ func openWorld(c *core.Ctx, s *sched, sessionLevel bool, maxOpen int, both bool)
 		panic(err)
 	}
 	w := &world{s: s, db: db, rec: rec, path: path, both: both, sdb: sdb}
+	for i := 1; i <= s.total; i++ {
+		ctx, cancel := context.WithCancel(context.WithValue(context.Background(), wkey, i))
+		w.ctxs, w.stop = append(w.ctxs, ctx), append(w.stop, cancel)
+	}
 	if sessionLevel {
 		tx := db.Session(&gorm.Session{PrepareStmt: true})
 		w.psdb, _ = tx.Statement.ConnPool.(*gorm.PreparedStmtDB)
@@ -152,6 +182,9 @@ func (w *world) scanRow(worker int, row *sql.Row, dst *int64) error {
 }
 
 func (w *world) close() {
+	for _, f := range w.stop {
+		f()
+	}
 	verifhook.Set(nil)
 	w.rec.SetHook(nil)
 	if sdb, err := w.db.DB(); err == nil {
@@ -162,8 +195,8 @@ func (w *world) close() {
 	os.Remove(w.path + "-shm")
 }
 
-func (w *world) runOp(worker int, op opKind) opResult {
-	ctx := context.WithValue(context.Background(), wkey, worker)
+// handle: the handle an operation of the worker uses (non-transaction), bound to ctx
+func (w *world) handle(ctx context.Context, worker int, op opKind) *gorm.DB {
 	db := w.db.WithContext(ctx)
 	if w.root != nil {
 		db = w.root.Session(&gorm.Session{PrepareStmt: true}).WithContext(ctx)
@@ -172,7 +205,22 @@ func (w *world) runOp(worker int, op opKind) opResult {
 			db = w.root.WithContext(ctx)
 		}
 	}
-	r := opResult{op: op}
+	return db
+}
+
+func ended(ctx context.Context) context.Context {
+	c, cancel := context.WithCancel(ctx)
+	cancel()
+	return c
+}
+
+func (w *world) runOp(worker int, op opKind, pre bool) opResult {
+	ctx := w.ctxs[worker-1]
+	if pre {
+		ctx = ended(ctx)
+	}
+	db := w.handle(ctx, worker, op)
+	r := opResult{op: op, preEnded: pre}
 	w.s.mu.Lock()
 	r.closeBefore = w.s.closeIssued
 	r.resetsAt[0] = w.s.resets
@@ -211,6 +259,27 @@ func (w *world) runOp(worker int, op opKind) opResult {
 			r.rows = res.RowsAffected
 			return w.scanRow(worker, tx.Raw(textN, own).Row(), &r.n)
 		})
+	case "TXOUTROW", "TXOUTQ", "TXOUTX":
+		r.err = db.Transaction(func(tx *gorm.DB) error {
+			res := tx.Exec(textU, own)
+			if res.Error != nil {
+				return res.Error
+			}
+			r.rows = res.RowsAffected
+			out := w.handle(ended(ctx), worker, op)
+			r.outDone = true
+			switch op {
+			case "TXOUTROW":
+				var n int64
+				r.outErr = w.scanRow(worker, out.Raw(textN, own).Row(), &n)
+			case "TXOUTQ":
+				var v string
+				r.outErr = out.Raw(textB, 2).Scan(&v).Error
+			case "TXOUTX":
+				r.outErr = out.Exec(textU, own).Error // never applied: its context has ended
+			}
+			return nil
+		})
 	case "TXNEST":
 		// an increment, then a nested block that increments again and fails: its save point takes that one back
 		r.err = db.Transaction(func(tx *gorm.DB) error {
@@ -241,6 +310,8 @@ func (w *world) runOp(worker int, op opKind) opResult {
 	r.closeAfter = w.s.closeIssued
 	r.resetsAt[1] = w.s.resets
 	w.s.tick++
+	r.endTick = w.s.tick
+	r.ctxEnded = pre || w.s.cancelTick[worker] != 0
 	var pe *errPrepare
 	if errors.As(r.err, &pe) && pe.owner == worker && pe.doneTick == 0 {
 		pe.doneTick = w.s.tick
@@ -255,7 +326,7 @@ func expected(op opKind) (string, int64) {
 		return "a", 0
 	case "QB", "FIND":
 		return "b", 0
-	case "EXEC", "TXROW", "TXNEST":
+	case "EXEC", "TXROW", "TXNEST", "TXOUTROW", "TXOUTQ", "TXOUTX":
 		return "", 1
 	case "TXEXEC":
 		return "b", 1
@@ -264,7 +335,7 @@ func expected(op opKind) (string, int64) {
 }
 
 func increments(op opKind) bool {
-	return op == "EXEC" || op == "TXEXEC" || op == "TXROW" || op == "TXNEST"
+	return op == "EXEC" || op == "TXEXEC" || op == "TXROW" || op == "TXNEST" || txOut(op)
 }
 
 var errNestedFails = errors.New("verif: the nested block fails")
@@ -283,6 +354,19 @@ type scenario struct {
 	badconnTx    bool
 	holdBack     bool
 	both         bool // PrepareStmt in the configuration AND a Session{PrepareStmt: true} per operation: one cache
+	// ended contexts: ended[i][j] = operation j of worker i+1 starts with a context that has already ended;
+	// cancels = workers whose context the controller cancels at some step of the schedule (it stays ended)
+	ended   [][]bool
+	cancels []int
+	// holdTx: the call held back (holdBack) is the first statement a transaction executes at the driver: the
+	// transaction keeps its pool connection until everybody else has returned
+	holdTx bool
+}
+
+func (sc *scenario) clearCtx() { sc.ended, sc.cancels = nil, nil }
+
+func (sc scenario) pre(i, j int) bool {
+	return i < len(sc.ended) && j < len(sc.ended[i]) && sc.ended[i][j]
 }
 
 func (sc scenario) String() string {
@@ -291,11 +375,14 @@ func (sc scenario) String() string {
 		ops := make([]string, len(p))
 		for j, o := range p {
 			ops[j] = string(o)
+			if sc.pre(i, j) {
+				ops[j] += "(context ended before the call)"
+			}
 		}
 		ws = append(ws, fmt.Sprintf("w%d[%s]", i+1, strings.Join(ops, ",")))
 	}
-	return fmt.Sprintf("%s resets=%d closeEarly=%v sessionLevel=%v maxOpen=%d prepareFailures<=%d badConn<=%d hookWindows=%v badConnInTx=%v holdBackOneExecution=%v configAndSession=%v",
-		strings.Join(ws, " "), sc.resets, sc.closeEarly, sc.sessionLevel, sc.maxOpen, sc.failBudget, sc.badconn, sc.parkHooks, sc.badconnTx, sc.holdBack, sc.both)
+	return fmt.Sprintf("%s resets=%d closeEarly=%v sessionLevel=%v maxOpen=%d prepareFailures<=%d badConn<=%d hookWindows=%v badConnInTx=%v holdBackOneExecution=%v(inTransaction=%v) configAndSession=%v controllerCancelsContextOf=%v",
+		strings.Join(ws, " "), sc.resets, sc.closeEarly, sc.sessionLevel, sc.maxOpen, sc.failBudget, sc.badconn, sc.parkHooks, sc.badconnTx, sc.holdBack, sc.holdTx, sc.both, sc.cancels)
 }
 
 func genScenario(r *core.Rand) scenario {
@@ -304,7 +391,11 @@ func genScenario(r *core.Rand) scenario {
 	for i := 0; i < n; i++ {
 		var p []opKind
 		for j := r.Range(1, 3); j > 0; j-- {
-			p = append(p, core.Pick(r, opKinds))
+			op := core.Pick(r, opKinds)
+			if op == "TXOUT" {
+				op = core.Pick(r, txOutKinds)
+			}
+			p = append(p, op)
 		}
 		sc.workers = append(sc.workers, p)
 	}
@@ -315,6 +406,20 @@ func genScenario(r *core.Rand) scenario {
 	sc.failBudget = r.Intn(3)
 	sc.badconn = r.Intn(2)
 	sc.parkHooks = r.Bool()
+	// callers whose context ends: before the call (a third of the scenarios, a quarter of their operations) or at
+	// a step the scheduler chooses (a fifth of the scenarios, one worker)
+	if r.Chance(1, 3) {
+		for _, p := range sc.workers {
+			e := make([]bool, len(p))
+			for j, op := range p {
+				e[j] = op != "QAERR" && r.Chance(1, 4)
+			}
+			sc.ended = append(sc.ended, e)
+		}
+	}
+	if r.Chance(1, 5) {
+		sc.cancels = []int{r.Range(1, n)}
+	}
 	return sc
 }
 
@@ -337,6 +442,7 @@ func execute(c *core.Ctx, sc scenario, r *core.Rand, forced []int) outcome {
 	s.verbose = c.Verbose
 	s.badconnTxFirst = sc.badconnTx
 	s.holdBack = sc.holdBack
+	s.holdTx = sc.holdTx
 	s.systematic = forced != nil
 	w := openWorld(c, s, sc.sessionLevel, sc.maxOpen, sc.both)
 	out := outcome{sc: sc, results: make([][]opResult, len(sc.workers))}
@@ -354,8 +460,8 @@ func execute(c *core.Ctx, sc scenario, r *core.Rand, forced []int) outcome {
 				}
 			}()
 			s.register(i + 1)
-			for _, op := range sc.workers[i] {
-				out.results[i] = append(out.results[i], w.runOp(i+1, op))
+			for j, op := range sc.workers[i] {
+				out.results[i] = append(out.results[i], w.runOp(i+1, op, sc.pre(i, j)))
 			}
 		}(i)
 	}
@@ -366,6 +472,16 @@ func execute(c *core.Ctx, sc scenario, r *core.Rand, forced []int) outcome {
 			s.resets++
 			s.mu.Unlock()
 			w.psdb.Reset()
+		}})
+	}
+	for _, wk := range sc.cancels {
+		wk := wk
+		ctl = append(ctl, ctlAction{fmt.Sprintf("cancel the context of w%d", wk), func() {
+			s.mu.Lock()
+			s.tick++
+			s.cancelTick[wk] = s.tick
+			s.mu.Unlock()
+			w.stop[wk-1]()
 		}})
 	}
 	closeAct := ctlAction{"Close()", func() {
@@ -476,6 +592,18 @@ func execute(c *core.Ctx, sc scenario, r *core.Rand, forced []int) outcome {
 			out.problems = append(out.problems, fmt.Sprintf("w%d: its counter row holds %d at the end; %d of its incrementing operations succeeded and %d failed, which allows %d..%d (non-prepared mode)", i+1, n, incs, unsure, incs, incs+unsure))
 		}
 	}
+	// endedInFlight: an operation of another worker, some statement of which ran under an ended context, was in
+	// flight during r's lifetime (the failure of its preparation may legally be reported to r as a waiter)
+	endedInFlight := func(i int, r opResult) bool {
+		for j, xs := range out.results {
+			for _, x := range xs {
+				if j != i && x.usesEndedCtx() && x.endTick > r.startTick && x.startTick < r.endTick {
+					return true
+				}
+			}
+		}
+		return false
+	}
 	// results
 	for i, rs := range out.results {
 		incs, certain := int64(0), true // the worker's own successful increments so far
@@ -485,12 +613,30 @@ func execute(c *core.Ctx, sc scenario, r *core.Rand, forced []int) outcome {
 				var pe *errPrepare
 				if r.err == nil {
 					out.problems = append(out.problems, fmt.Sprintf("w%d QAERR (one argument too many) returned no error", i+1))
-				} else if !strings.Contains(r.err.Error(), "arguments") && !errors.As(r.err, &pe) && !errors.Is(r.err, driver.ErrBadConn) && !(r.closeAfter && cleanAfterClose.MatchString(r.err.Error())) && !strings.Contains(r.err.Error(), "statement is closed") {
+				} else if !strings.Contains(r.err.Error(), "arguments") && !(r.ctxEnded && ctxClass(r.err)) && !(errors.Is(r.err, context.Canceled) && endedInFlight(i, r)) && !errors.As(r.err, &pe) && !errors.Is(r.err, driver.ErrBadConn) && !(r.closeAfter && cleanAfterClose.MatchString(r.err.Error())) && !strings.Contains(r.err.Error(), "statement is closed") {
 					out.problems = append(out.problems, fmt.Sprintf("w%d QAERR returned %q, non-prepared mode reports the argument count", i+1, r.err))
 				}
 				if r.err != nil && strings.Contains(r.err.Error(), "statement is closed") && !(r.closeAfter && cleanAfterClose.MatchString(r.err.Error())) {
 					out.problems = append(out.problems, fmt.Sprintf("w%d %s returned %q (Close issued before it returned: %v, Reset count during it: %d)", i+1, r.op, r.err, r.closeAfter, r.resetsAt[1]))
 				}
+				continue
+			}
+			if txOut(r.op) && r.outDone {
+				// the statement issued through the outer handle under an ended context
+				var pe *errPrepare
+				switch {
+				case r.outErr == nil:
+					out.problems = append(out.problems, fmt.Sprintf("w%d %s: the statement issued through the non-transaction handle with a context that had ended before the call returned no error; non-prepared mode returns %q", i+1, r.op, context.Canceled))
+				case ctxClass(r.outErr), errors.As(r.outErr, &pe):
+				case r.closeAfter && cleanAfterClose.MatchString(r.outErr.Error()):
+				case errors.Is(r.outErr, errRowUnusable):
+					out.problems = append(out.problems, fmt.Sprintf("w%d %s: Row() returned a zero *sql.Row and no error (its Scan panics); non-prepared mode returns a row carrying the error (Close issued before it returned: %v)", i+1, r.op, r.closeAfter))
+				default:
+					out.problems = append(out.problems, fmt.Sprintf("w%d %s: the statement issued through the non-transaction handle with an ended context returned %q, non-prepared mode returns %q (Close issued before it returned: %v, Reset count during it: %d)", i+1, r.op, r.outErr, context.Canceled, r.closeAfter, r.resetsAt[1]))
+				}
+			}
+			if r.err == nil && r.preEnded {
+				out.problems = append(out.problems, fmt.Sprintf("w%d %s was called with a context that had ended before the call and returned no error (%q, %d rows); non-prepared mode returns %q", i+1, r.op, r.val, r.rows, context.Canceled))
 				continue
 			}
 			if r.err == nil {
@@ -515,6 +661,14 @@ func execute(c *core.Ctx, sc scenario, r *core.Rand, forced []int) outcome {
 				// it arrived; once the owning operation has returned the failure must be gone
 				if pe.doneTick != 0 && pe.doneTick < r.startTick {
 					out.problems = append(out.problems, fmt.Sprintf("w%d %s received %v, which was injected outside the operation's lifetime (a failed preparation was cached)", i+1, r.op, r.err))
+				}
+			case r.ctxEnded && ctxClass(r.err):
+				// its own context had ended before it returned: what non-prepared mode reports
+			case errors.Is(r.err, context.Canceled):
+				// its own context is live: this is the failure of a preparation another caller's ended context
+				// broke, reported to a waiter - legal only while that caller's operation was in flight
+				if !endedInFlight(i, r) {
+					out.problems = append(out.problems, fmt.Sprintf("w%d %s returned %q although its own context is live and no operation with an ended context was in flight during its lifetime (a failed preparation was cached)", i+1, r.op, r.err))
 				}
 			case errors.Is(r.err, driver.ErrBadConn):
 				if !s.badconnHit[i+1] {
@@ -581,6 +735,7 @@ func run(c *core.Ctx) {
 		// preparation that needs it
 		sc.maxOpen = 1
 		sc.resets, sc.failBudget, sc.badconn = 0, 0, 0
+		sc.clearCtx()
 		sc.workers = [][]opKind{{"TXQA"}, {"QA"}}
 		if r.Bool() {
 			sc.workers = append(sc.workers, []opKind{core.Pick(r, []opKind{"QA", "TXQA", "QB"})})
@@ -588,13 +743,16 @@ func run(c *core.Ctx) {
 		if c.Case%128 != 0 {
 			// one worker alone: whatever its transaction prepares or reads (Row() included) has to get by
 			// with the connection the transaction holds. Nobody else is there to wait for.
-			sc.workers = [][]opKind{{core.Pick(r, []opKind{"TXROW", "TXQA", "TXEXEC", "TXROW"}), core.Pick(r, []opKind{"TXROW", "ROW", "QA", "TXEXEC"})}}
+			// A statement it issues through the outer handle under an ended context (TXOUT*) needs no connection at
+			// all: it returns at once.
+			sc.workers = [][]opKind{{core.Pick(r, []opKind{"TXROW", "TXQA", "TXEXEC", "TXROW", "TXOUTROW", "TXOUTQ", "TXOUTX"}), core.Pick(r, []opKind{"TXROW", "ROW", "QA", "TXEXEC", "TXOUTROW", "TXOUTQ", "TXOUTX"})}}
 			sc.closeEarly, sc.parkHooks, sc.holdBack = false, false, false
 		}
 	case 1:
 		// many goroutines, one text, one failing preparation
 		sc.workers = [][]opKind{{"QA", "QA"}, {"QA"}, {"QA"}, {"QA", "QA"}}
 		sc.failBudget, sc.resets = 2, 0
+		sc.clearCtx()
 	case 4:
 		// a text prepared outside a transaction, then executed inside one on a connection
 		// that reports ErrBadConn: the evicted statement must still be closed
@@ -605,6 +763,7 @@ func run(c *core.Ctx) {
 			sc.workers = [][]opKind{{"TXEXEC"}, {"EXEC", "EXEC"}, {"EXEC"}}
 		}
 		sc.resets, sc.failBudget, sc.badconn, sc.badconnTx, sc.sessionLevel = 0, 0, 1, true, false
+		sc.clearCtx()
 	case 5, 6:
 		// one execution stays in flight at the driver until everybody else has returned, another
 		// execution of the same statement meets a bad connection (eviction), a third worker uses the cache
@@ -616,6 +775,35 @@ func run(c *core.Ctx) {
 		// each other - KF-C14-1 - which is not what this scenario is about)
 		sc.resets, sc.closeEarly, sc.failBudget, sc.badconn, sc.sessionLevel, sc.parkHooks = 0, false, 0, 1, r.Chance(1, 4), false
 		sc.holdBack = true
+		sc.clearCtx()
+	case 8:
+		// the pool has one connection and a transaction keeps it (its first statement stays in flight at the driver
+		// until everybody else has returned); every other caller's context ends - before its call, or cancelled by the
+		// controller at some step while it runs or waits for a connection: whatever it asks for (Row(), raw query,
+		// model query, update; text cached or not) it has to return without the connection, as in non-prepared mode
+		sc.maxOpen = 1
+		sc.workers = [][]opKind{{core.Pick(r, []opKind{"TXQA", "TXEXEC", "TXROW", "TXNEST"})}}
+		sc.clearCtx()
+		sc.ended = [][]bool{{false}}
+		for k := r.Range(1, 2); k > 0; k-- {
+			var p []opKind
+			for j := r.Range(1, 2); j > 0; j-- {
+				p = append(p, core.Pick(r, []opKind{"ROW", "QA", "QB", "FIND", "EXEC", "ROW"}))
+			}
+			sc.workers = append(sc.workers, p)
+			if r.Bool() {
+				sc.ended = append(sc.ended, make([]bool, len(p)))
+				sc.cancels = append(sc.cancels, len(sc.workers))
+			} else {
+				e := make([]bool, len(p))
+				for j := range e {
+					e[j] = true
+				}
+				sc.ended = append(sc.ended, e)
+			}
+		}
+		sc.resets, sc.closeEarly, sc.failBudget, sc.badconn, sc.badconnTx = 0, false, r.Intn(2), 0, false
+		sc.holdBack, sc.holdTx = true, true
 	case 7:
 		// one caller's private failure (an argument too many) next to healthy users of the same text; nothing else
 		// happens to the cache: no Reset, no early Close, no injected failure
@@ -624,10 +812,12 @@ func run(c *core.Ctx) {
 			sc.workers = append(sc.workers, []opKind{"QA", "QAERR", "QA"})
 		}
 		sc.resets, sc.closeEarly, sc.failBudget, sc.badconn, sc.holdBack = 0, false, 0, 0, false
+		sc.clearCtx()
 	case 2:
 		// Reset while preparations are in flight
 		sc.workers = [][]opKind{{"QA", "QB"}, {"QA", "QB"}, {"QB", "QA"}}
 		sc.resets, sc.parkHooks, sc.failBudget, sc.badconn = 2, true, 0, 0
+		sc.clearCtx()
 	}
 	c.Logf("SCENARIO %s", sc.String())
 	if c.Thorough && special == 3 {
@@ -692,7 +882,11 @@ func report(c *core.Ctx, sc scenario, out outcome) {
 			switch {
 			case strings.HasPrefix(p, "deadlock"):
 				sig = "deadlock"
-				if sc.maxOpen == 1 {
+				if sc.maxOpen == 1 && sc.holdTx {
+					// not KF-C14-2: every caller but the transaction has an ended context, none of them may wait for
+					// the connection (KF-C14-2's in-flight preparation fails at once or when its context is cancelled)
+					sig = "deadlock-maxopen1-ended-context"
+				} else if sc.maxOpen == 1 {
 					sig = "deadlock-maxopen1"
 					if len(sc.workers) == 1 {
 						// not KF-C14-2, which needs a second worker preparing the same text outside a transaction
@@ -708,6 +902,8 @@ func report(c *core.Ctx, sc scenario, out outcome) {
 				}
 			case strings.Contains(p, "was prepared"):
 				sig = "duplicate-prepare"
+			case strings.Contains(p, "returned no error") && strings.Contains(p, "had ended before the call"):
+				sig = "ended-context-ignored"
 			case strings.Contains(p, "returned a zero *sql.Row"):
 				sig = "row-swallows-prepare-error"
 			case strings.Contains(p, "a failed preparation was cached"):
@@ -738,13 +934,15 @@ func postChild(dir string, batch int, res *core.Result) { core.ScanRaceLogs(dir,
 var Engine = &core.Engine{
 	ID:    "C14",
 	Level: "exploration",
-	Rule: "scenario = 2..4 workers x 1..3 operations (raw queries on two texts, model query, update, Row() reads of the worker's own counter, transactions with one and two statements incl. increment-then-Row()) x 0..2 Reset() + Close() (early or at the end) x {config-level PrepareStmt, session-level PrepareStmt with a session derived per operation, both at once (one shared cache)} x prepare failures (<=2) x ErrBadConn (<=1) x parking of the three windows inside prepare() on/off; four dedicated scenarios (single-connection pool, one text + failing preparation, Reset during in-flight preparations, one execution held in flight at the driver until everybody else has returned while another execution of the same statement meets a bad connection); " +
-		"one schedule per case: every gorm-level PrepareContext, every prepared-statement execution at the driver and every hook window is parked and released one at a time in a seeded order; distinct = the literal sequence of released calls and controller actions; every schedule is non-trivial (at least two workers share a handle)",
+	Rule: "scenario = 2..4 workers x 1..3 operations (raw queries on two texts, model query, update, Row() reads of the worker's own counter, transactions with one and two statements incl. increment-then-Row(), a nested block that fails, a statement with an argument too many, a dedicated connection, a transaction that issues Row() / a raw query / an update through the OUTER handle under an ended context) x 0..2 Reset() + Close() (early or at the end) x {config-level PrepareStmt, session-level PrepareStmt with a session derived per operation, both at once (one shared cache)} x prepare failures (<=2) x ErrBadConn (<=1) x parking of the three windows inside prepare() on/off x callers whose context ends (a third of the scenarios: a quarter of the operations start with a context that has already ended; a fifth: the controller cancels one worker's context at a seeded step, like Reset/Close) - such an operation returns what non-prepared mode returns (context canceled, never rows when the context had ended before the call), a live waiter may receive that failure only while the operation was in flight; dedicated scenarios (single-connection pool incl. one worker alone; single-connection pool kept by a transaction whose first statement stays in flight at the driver until everybody else has returned while all other callers (Row(), raw and model queries, updates, cached and uncached texts) have contexts that end before or during their call: they must return without the connection; one text + failing preparation; a caller's private failure next to healthy users of the text; Reset during in-flight preparations; ErrBadConn on the first statement of a transaction; one execution held in flight at the driver until everybody else has returned while another execution of the same statement meets a bad connection); " +
+		"one schedule per case: every gorm-level PrepareContext, every prepared-statement execution at the driver and every hook window is parked and released one at a time in a seeded order; distinct = the literal sequence of released calls and controller actions; every schedule is non-trivial (at least two workers share a handle, or one worker's transaction and its own calls through the outer handle share the single connection)",
 	Assumptions: []string{
 		"schedules are explored at the driver / ConnPool boundary and at three hook windows; interleavings inside database/sql and the Go runtime are left to the race detector and natural scheduling",
 		"'eventually closed' is decided after Close(): closer goroutines balanced (hook counters) and bounded waiting for the ErrBadConn eviction goroutines, then the driver must hold no open statement",
 		"no progress is a deadlock only when the goroutine dump shows workers blocked inside PreparedStmtDB/PreparedStmtTX frames with nothing parked and nothing left to release; otherwise the case is inconclusive",
 		"settling uses short timeouts only to decide WHEN to release the next call; any release order is a legal schedule, so timing cannot create a false alarm",
+		"contexts end by cancellation at a logical step (before the call, or as a controller action of the schedule), never by a wall-clock deadline; an operation whose context ended while it ran may return its result or the context error (a failed increment counts as uncertain); the statement with an argument too many never starts with an ended context; in the scenario where a transaction keeps the only connection, no Reset / early Close / ErrBadConn is generated (closing statements in use makes their users wait for each other: KF-C14-1) and every caller other than the transaction has an ended context, so nobody may legitimately wait for the connection",
+		"a preparation that fails at database/sql because the caller's context ended counts as a failed preparation: it may be reported to waiters that arrived while the operation was in flight, and the text may be prepared again in the same generation",
 	},
 	Cases: func(tier string) int {
 		if tier == "thorough" {
